@@ -624,6 +624,44 @@ func c02Annotation(p *chk.Prog, r *chk.Report) {
 			w1 := g.BranchAlways(e, clr)
 			w2 := g.BranchAlways(e, reset)
 			y.Check("converge:"+name+":clears", posOf(w1, f), !w1.Found && !w2.Found, "", "a changed request does not clear the service state and the held addresses")
+			// ... and nothing narrower decides: every way past the test that does not enter the clearing branch establishes
+			// that the request did not change (a test such as `len(requested) > 1 && ...` lets a single changed address pass)
+			t := e.B.Succs[e.K]
+			ifs, isIf := t.Stmt.(*ast.IfStmt)
+			if !isIf {
+				continue
+			}
+			narrower := false
+			for _, b := range g.Blocks {
+				inCond := false
+				for _, nd := range b.Nodes {
+					if chk.Encloses(ifs.Cond, nd) {
+						inCond = true
+					}
+				}
+				if !inCond {
+					continue
+				}
+				for k, sb := range b.Succs {
+					if sb == t {
+						continue
+					}
+					// still inside the condition (the next operand of && / ||)?
+					stays := false
+					for _, nd := range sb.Nodes {
+						if chk.Encloses(ifs.Cond, nd) {
+							stays = true
+						}
+					}
+					if stays {
+						continue
+					}
+					if !g.EdgeImplies(b, k, chk.GNot(guard)) {
+						narrower = true
+					}
+				}
+			}
+			y.Check("converge:"+name+":exactly-when-the-request-changed", ifs.Pos(), !narrower, "", "the test that clears the state on a changed request can be false although the request changed (a narrower condition): the Service keeps addresses it no longer asks for")
 		}
 	}
 	check("pool-request-differs", g.GPat(true, `len(L) != 0 && DP != "" && RECV.ips.Pool(K) != DP`, chk.H("DP", dpool), chk.H("K", key)))
